@@ -392,6 +392,84 @@ theorem haar_ihaar_mem (h2 : (2 : K) ≠ 0) (pe : Bool) (cs cs' : List K) (v : V
     (fun y' x' hy' hx' => a1 y' x' hy' hx') y x]
   exact ihaar2_haar2_any h2 pe v.N0 v.N1 (v.read m) y x
 
+/-! ### the fresh copy (`inline=False`, integer input) -/
+
+omit [Field K] in
+/-- reading the fresh C-contiguous copy back gives the image -/
+theorem fresh_read_contig (N0 N1 : Nat) (f : Im K) (y x : Nat) (hx : x < N1) :
+    (View.contig N0 N1).read (freshMem (View.contig N0 N1) f) y x = f y x := by
+  have hN : (N1 : Int) ≠ 0 := by omega
+  have hx0 : (0 : Int) ≤ (x : Int) := by omega
+  have hxl : (x : Int) < (N1 : Int) := by omega
+  have e1 : ((0 : Int) + (N1 : Int) * (y : Int) + 1 * (x : Int)) / (N1 : Int) = (y : Int) := by
+    rw [show (0 : Int) + (N1 : Int) * (y : Int) + 1 * (x : Int) = (x : Int) + (N1 : Int) * (y : Int) by ring,
+      Int.add_mul_ediv_left _ _ hN, Int.ediv_eq_zero_of_lt hx0 hxl]; simp
+  have e2 : ((0 : Int) + (N1 : Int) * (y : Int) + 1 * (x : Int)) % (N1 : Int) = (x : Int) := by
+    rw [show (0 : Int) + (N1 : Int) * (y : Int) + 1 * (x : Int) = (x : Int) + (N1 : Int) * (y : Int) by ring,
+      Int.add_mul_emod_self_left, Int.emod_eq_of_lt hx0 hxl]
+  show freshMem (View.contig N0 N1) f ((0 : Int) + (N1 : Int) * (y : Int) + 1 * (x : Int)) = f y x
+  unfold freshMem
+  simp only [View.contig, if_true, e1, e2, Int.toNat_natCast]
+
+theorem rowsPass_congr (k : Kern) (cs : List K) (N0 N1 : Nat) (f f' : Im K)
+    (h : ∀ y x, y < N0 → x < N1 → f y x = f' y x) (y x : Nat) (hy : y < N0) :
+    rowsPass (coreKernel k cs) N1 f y x = rowsPass (coreKernel k cs) N1 f' y x :=
+  coreKernel_congr k cs N1 _ _ (fun p hp => h y p hy hp) x
+
+theorem colsPass_congr (k : Kern) (cs : List K) (N0 N1 : Nat) (f f' : Im K)
+    (h : ∀ y x, y < N0 → x < N1 → f y x = f' y x) (y x : Nat) (hx : x < N1) :
+    colsPass (coreKernel k cs) N0 f y x = colsPass (coreKernel k cs) N0 f' y x :=
+  coreKernel_congr k cs N0 _ _ (fun p hp => h p x hp hx) y
+
+/-- the 2-D core models read only the pixels of the image -/
+theorem core2_congr (w : Wrapper) (pe : Bool) (cs : List K) (N0 N1 : Nat) (f f' : Im K)
+    (h : ∀ y x, y < N0 → x < N1 → f y x = f' y x) (y x : Nat) (hy : y < N0) (hx : x < N1) :
+    core2 w pe cs N0 N1 f y x = core2 w pe cs N0 N1 f' y x := by
+  have rc : ∀ k1 k2 : Kern, colsPass (coreKernel k2 cs) N0 (rowsPass (coreKernel k1 cs) N1 f) y x
+      = colsPass (coreKernel k2 cs) N0 (rowsPass (coreKernel k1 cs) N1 f') y x := fun k1 k2 =>
+    colsPass_congr k2 cs N0 N1 _ _ (fun y' x' hy' _ => rowsPass_congr k1 cs N0 N1 f f' h y' x' hy') y x hx
+  have cr : ∀ k1 k2 : Kern, rowsPass (coreKernel k2 cs) N1 (colsPass (coreKernel k1 cs) N0 f) y x
+      = rowsPass (coreKernel k2 cs) N1 (colsPass (coreKernel k1 cs) N0 f') y x := fun k1 k2 =>
+    rowsPass_congr k2 cs N0 N1 _ _ (fun y' x' _ hx' => colsPass_congr k1 cs N0 N1 f f' h y' x' hx') y x hy
+  cases w with
+  | daubechies => exact rc .wavelet .wavelet
+  | idaubechies => exact cr .iwavelet .iwavelet
+  | haar =>
+    cases pe with
+    | false => exact rc .haar .haar
+    | true =>
+      show colsPass haarRow N0 (rowsPass haarRow N1 f) y x / two = colsPass haarRow N0 (rowsPass haarRow N1 f') y x / two
+      rw [show colsPass haarRow N0 (rowsPass haarRow N1 f) y x
+        = colsPass haarRow N0 (rowsPass haarRow N1 f') y x from rc .haar .haar]
+  | ihaar =>
+    cases pe with
+    | false => exact rc .ihaar .ihaar
+    | true =>
+      show colsPass ihaarRow N0 (rowsPass ihaarRow N1 f) y x * two = colsPass ihaarRow N0 (rowsPass ihaarRow N1 f') y x * two
+      rw [show colsPass ihaarRow N0 (rowsPass ihaarRow N1 f) y x
+        = colsPass ihaarRow N0 (rowsPass ihaarRow N1 f') y x from rc .ihaar .ihaar]
+
+/-- a call that does not work in place (`inline=False`, or a float-converted integer array whose axes keep the C
+    order) returns the core 2-D model of the image the view shows, when the number of rows is even (any number of
+    columns: the fresh array is C-contiguous, its rows have unit stride) -/
+theorem wrapMem_fresh_core (w : Wrapper) (pe : Bool) (cs : List K) (isFloat inline : Bool) (v : View)
+    (hfresh : ¬ (inline = true ∧ isFloat = true)) (hC : freshView isFloat inline v = View.contig v.N0 v.N1)
+    (h0 : v.N0 % 2 = 0) (m : Memory K) (y x : Nat) (hy : y < v.N0) (hx : x < v.N1) :
+    (wrapMem w pe cs isFloat inline v m).2 y x = core2 w pe cs v.N0 v.N1 (v.read m) y x := by
+  have e : (wrapMem w pe cs isFloat inline v m).2
+      = (freshView isFloat inline v).read (wrapperBody w pe cs (freshView isFloat inline v)
+          (freshMem (freshView isFloat inline v) (v.read m))) := by
+    revert hfresh
+    cases isFloat <;> cases inline <;> simp [wrapMem, wrapMemG, wrapTarget, wrapperBody]
+  rw [e, hC]
+  obtain ⟨a1, _⟩ := wrapperBody_spec w pe cs (View.contig v.N0 v.N1) (contig_inj v.N0 v.N1)
+    (highOK_of _ _ (Or.inr (Or.inl rfl))) (highOK_of _ _ (Or.inl h0)) (freshMem (View.contig v.N0 v.N1) (v.read m))
+  have := a1 y x hy hx
+  show wrapperBody w pe cs (View.contig v.N0 v.N1) (freshMem (View.contig v.N0 v.N1) (v.read m))
+      ((View.contig v.N0 v.N1).addr y x) = _
+  rw [this]
+  exact core2_congr w pe cs v.N0 v.N1 _ _ (fun y' x' _ hx' => fresh_read_contig v.N0 v.N1 (v.read m) y' x' hx') y x hy hx
+
 end Pass
 
 end Mahotas.C17.Mem
